@@ -1,12 +1,25 @@
 ---- MODULE Slicing ----
-(* C13.  Row slicing used by the multithreaded kernels, the condensed-distance index map and the        *)
-(* integer distance definitions.                                                                     *)
+(* C13.  Row slicing used by the multithreaded kernels, the condensed-distance index map, the integer     *)
+(* distance definitions, the labelling definition and the tolerance functions of the value ledger.      *)
 (*   variant A ("assign first"): MT_MatrixDVectorDotProduct, MT_DVectorMatrixDotProduct (matrix.c),   *)
 (*        CalculateDistance, the four *DistanceCondensed (metricspace.c), MDC (clustering.c):          *)
 (*        step = ceil(rows/th); from=0; to=step; per worker: hand out [from,to); from=to;             *)
 (*        to = IF from+step > rows THEN rows ELSE to+step                                             *)
 (*   variant B ("advance first"): KMeansppCenters, getLabels_ (clustering.c):                          *)
 (*        nobj = ceil(rows/th); per worker: lo=from; from = IF from+nobj > rows THEN rows ELSE from+nobj; hand out [lo,from) *)
+(*                                                                                                     *)
+(* CLAUSES of the property and where they are decided (events are those of TraceSlicing.tla):          *)
+(*  c1 every row is processed by exactly one worker ............ ExactlyOnce / InvA InvB (model), PropSlices on Slices events   *)
+(*  c2 ... for every thread count (> rows, not dividing, one) .. Init quantifies rows x th; Slices/Cmp/Tab events carry th     *)
+(*  c3 MT result = single-threaded result to rounding ........... TCmp: err <= Tol(tol, len) (ledger), exact kinds ndiff = 0    *)
+(*  c4 bit-identical between repeated runs ...................... TCmp what = "repeat": ndiff = 0; TTab rep = 0; TLab rep = 0  *)
+(*  c5 into a zero-initialised output / outputs the routine sizes TTab post shape = TabShape (histories, stale outputs)         *)
+(*  c6 distances match their definitions ........................ TTab CellOK (TLC recomputes every cell on integer points)    *)
+(*  c7 symmetry, zero self-distance, non-negativity, triangle .... MetricAxioms (model, DistAxioms.tla), TabAxioms on logged tables *)
+(*  c8 condensed = strict upper triangle under the index map ..... TTab form = "condensed": size CondSize, cell Idx(i,j,n); TCond *)
+(*  c9 the index map is a bijection ............................. CondensedBijection / InvC, CondWriteOnce / InvD, TIdx          *)
+(*  c10 k-means labelling = sequential labelling ................. TLab (nearest centroid by TLC), TCmp tol "exact"             *)
+(*  c11 selection algorithms independent of the thread count ..... TCmp site MDC/MaxDis/MaxDis_Fast/KMeansppCenters/KMeans      *)
 EXTENDS Naturals, Integers, Sequences, FiniteSets, TLC
 CONSTANTS MaxRows, MaxThreads, MaxCond
 
@@ -62,6 +75,55 @@ MetricAxioms(P) == LET n == Len(P) IN
   /\ \A i, j, k \in 1..n : /\ Manhattan(P, i, k) <= Manhattan(P, i, j) + Manhattan(P, j, k)
                           /\ TriSq(SqEuclid(P, i, j), SqEuclid(P, j, k), SqEuclid(P, i, k))
 
+(* ---- the condensed kernel: the cells the workers of one launch write (slicing composed with the index map) ---- *)
+RowCells(i, n) == { Idx(i, k, n) : k \in (i + 1)..(n - 1) }
+WritesOf(sl, t, n) == UNION { RowCells(i, n) : i \in sl[t][1]..(sl[t][2] - 1) }
+CondRowsDisjoint(n) ==          \* independent of the slicing: distinct rows write distinct cells, row i writes n-1-i of them
+  /\ \A i, k \in 0..(n - 1) : i # k => RowCells(i, n) \cap RowCells(k, n) = {}
+  /\ \A i \in 0..(n - 1) : Cardinality(RowCells(i, n)) = n - 1 - i
+CondWriteOnce(sl, n) ==
+  /\ \A t, u \in 1..Len(sl) : t # u => WritesOf(sl, t, n) \cap WritesOf(sl, u, n) = {}
+  /\ UNION { WritesOf(sl, t, n) : t \in 1..Len(sl) } = 0..(CondSize(n) - 1)
+
+(* ---- dot product, cosine, quantised square root: exact integer statements about logged tables ---- *)
+RECURSIVE Dot(_, _, _)
+Dot(a, b, d) == IF d = 0 THEN 0 ELSE a[d] * b[d] + Dot(a, b, d - 1)
+QU  == 1000            \* euclidean / cosine cells are logged in units of 1/QU, rounded to nearest
+QU2 == QU * QU
+\* v = round(QU * sqrt(s)):  (v-1)^2 <= QU2 s <= (v+1)^2   (guards keep every product inside 32 bits)
+SqrtQ(v, s) == /\ v >= 0 /\ v <= 44000 /\ s >= 0 /\ s <= 1900
+               /\ (v = 0 \/ (v - 1) * (v - 1) <= s * QU2) /\ s * QU2 <= (v + 1) * (v + 1)
+\* v = round(QU * n / sqrt(da db)), da, db > 0
+CosQ(v, n, da, db) == LET a == Abs(v) IN
+  /\ a <= QU + 1 /\ da > 0 /\ db > 0 /\ da * db <= 1600
+  /\ (n > 0 => v >= 0) /\ (n < 0 => v <= 0)
+  /\ (a <= 1 \/ (a - 1) * (a - 1) * da * db <= n * n * QU2) /\ n * n * QU2 <= (a + 1) * (a + 1) * da * db
+Kinds == {"euclidean", "sqeuclidean", "manhattan", "cosine"}
+CellOK(kind, v, a, b) == LET d == Len(a) IN
+  CASE kind = "sqeuclidean" -> v = SumSq(a, b, d)
+    [] kind = "manhattan"   -> v = SumAbs(a, b, d)
+    [] kind = "euclidean"   -> SqrtQ(v, SumSq(a, b, d))
+    [] kind = "cosine"      -> CosQ(v, Dot(a, b, d), Dot(a, a, d), Dot(b, b, d))
+    [] OTHER -> FALSE
+
+(* ---- labelling: the nearest centroids of a point; the code keeps the first of them ---- *)
+Sq2(a, b) == SumSq(a, b, Len(a))
+NearestSet(p, C) == {k \in 1..Len(C) : \A q \in 1..Len(C) : Sq2(p, C[k]) <= Sq2(p, C[q])}
+FirstNearest(p, C) == CHOOSE k \in NearestSet(p, C) : \A q \in NearestSet(p, C) : k <= q
+
+(* ---- value ledger: tolerances in units of 2^-53 * scale, functions of the reduction length only.        *)
+(*  dot   scale = sum |m_ij v_j| over the terms that are summed: recursive summation of len products,     *)
+(*        one rounding each: |computed - exact| <= len u scale; two computed values differ by <= 2 len u  *)
+(*  dist  scale = the exact distance: sub, square, len-1 additions, sqrt on non-negative terms            *)
+(*  cos   scale = 1 (|cos| <= 1 and sum|x y| <= |x||y|): numerator len u, two norms (len+1) u, 2 sqrt,    *)
+(*        product, quotient                                                                               *)
+(*  none of them depends on offsets or magnitudes: the definitions subtract before squaring and are      *)
+(*  scale-equivariant, so classes K3 / K4 keep the SAME tolerance as centred unit-scale data.            *)
+TolDot(len)  == 2 * len + 2
+TolDist(len) == 2 * (len + 4)
+TolCos(len)  == 4 * len + 12
+Tol(k, len) == CASE k = "dot" -> TolDot(len) [] k = "dist" -> TolDist(len) [] k = "cos" -> TolCos(len) [] OTHER -> 0
+
 VARIABLES rows, th
 vars == <<rows, th>>
 Init == rows \in 0..MaxRows /\ th \in 1..MaxThreads
@@ -72,4 +134,6 @@ InvB == ExactlyOnce(AdvanceFirst(rows, th), rows) /\ Len(AdvanceFirst(rows, th))
 InvSame == \* the two recurrences hand out the same ranges
            AssignFirst(rows, th) = AdvanceFirst(rows, th)
 InvC == (th = 1 /\ rows <= MaxCond) => CondensedBijection(rows) /\ CondensedIsRowMajor(rows)
+InvD == \* the workers of a condensed launch write every cell of the condensed vector exactly once, for every thread count
+        rows <= MaxCond => CondWriteOnce(AssignFirst(rows, th), rows) /\ (th = 1 => CondRowsDisjoint(rows))
 ====
